@@ -82,7 +82,7 @@ def _cds_events(args):
         try:
             cds = mk_cds(blocks, st, frames, root)
         except Exception as ex:  # construction of a valid layout must not fail
-            ev.append(["cds", [blocks, st], list(frames), list(root), ["x", type(ex).__name__]] + [["x", "ctor"]] * 4
+            ev.append(["cds", [blocks, st], list(frames), list(root), ["x", E.exc_name(ex)]] + [["x", "ctor"]] * 4
                       + [[], []])
             continue
         # the fast sequence path first (fresh object), then the codon lists, then the sequence again
